@@ -142,10 +142,10 @@ def generate(rng, opts):
             else:
                 faults.append({"kind": "bytecode"})
         if r < 0.6:
-            ops.append({"op": "load_git", "ref": ref, "form": rng.choice(["name", "name", "path"]), "repo_arg": rng.choice(["abs", "abs", "dot", "relative", "pathobj"]), "resolve_aliases": rng.random() < 0.5, "force_inspection": any(f["kind"] == "bytecode" for f in faults), "faults": faults})
+            ops.append({"thread": rng.random() < 0.2, "op": "load_git", "ref": ref, "form": rng.choice(["name", "name", "path"]), "repo_arg": rng.choice(["abs", "abs", "dot", "relative", "pathobj"]), "resolve_aliases": rng.random() < 0.5, "force_inspection": any(f["kind"] == "bytecode" for f in faults), "faults": faults})
         else:
             base = rng.choice([None, None, rng.choice(refs)])
-            ops.append({"op": "check", "api": rng.choice(["check", "main"]), "against": ref if rng.random() < 0.85 else None, "base_ref": base, "style": rng.choice([None, "oneline", "verbose", "markdown", "github"]), "faults": faults})
+            ops.append({"thread": rng.random() < 0.2, "op": "check", "api": rng.choice(["check", "main"]), "against": ref if rng.random() < 0.85 else None, "base_ref": base, "style": rng.choice([None, "oneline", "verbose", "markdown", "github"]), "faults": faults})
     return {"world": {"layout": layout, "commits": commits, "state": state, "sibling": sibling}, "ops": ops}
 
 
@@ -591,12 +591,12 @@ def execute(plan, ctx):
             if any(f["kind"] == "bytecode" for f in faults):
                 sys.dont_write_bytecode = False  # CPython's default; this sandbox exports PYTHONDONTWRITEBYTECODE=1
                 ctx.fault("bytecode-caching-enabled")
-            try:
+            def _operation():
                 with CheckoutReadSeam(tmpdir, faults, ctx):
                     if op["op"] == "load_git":
                         spec = "pkg" if op["form"] == "name" else Path("src/pkg" if world["layout"] == "src" else "pkg")
                         repo_arg = {"abs": repo, "dot": ".", "relative": os.path.join("..", os.path.basename(repo)), "pathobj": Path(repo)}[op.get("repo_arg", "abs")]
-                        result = griffe.load_git(
+                        return griffe.load_git(
                             spec,
                             ref=op["ref"],
                             repo=repo_arg,
@@ -609,7 +609,7 @@ def execute(plan, ctx):
                     elif op["api"] == "check":
                         from _griffe.cli import check
 
-                        result = check("pkg", op["against"], base_ref=op["base_ref"], extensions=[ext], search_paths=search_paths, allow_inspection=False, style=op["style"], color=False)
+                        return check("pkg", op["against"], base_ref=op["base_ref"], extensions=[ext], search_paths=search_paths, allow_inspection=False, style=op["style"], color=False)
                     else:
                         from _griffe.cli import main
 
@@ -622,7 +622,30 @@ def execute(plan, ctx):
                             argv += ["-s", "src"]
                         if op["style"]:
                             argv += ["-f", op["style"]]
-                        result = main(argv)
+                        return main(argv)
+
+            try:
+                if op.get("thread"):
+                    # the embedding application calls Griffe from a worker thread (one thread at a time: no race)
+                    import threading
+
+                    box = {}
+
+                    def _target():
+                        try:
+                            box["result"] = _operation()
+                        except BaseException as e:  # noqa: BLE001
+                            box["error"] = e
+
+                    th = threading.Thread(target=_target, name="sim-worker")
+                    th.start()
+                    th.join()
+                    ctx.fault("called-from-worker-thread")
+                    if "error" in box:
+                        raise box["error"]
+                    result = box.get("result")
+                else:
+                    result = _operation()
             except BaseException as e:  # noqa: BLE001 - interruptions are part of the fault model
                 outcome = type(e).__name__
             finally:
@@ -760,7 +783,7 @@ def sample_view(plan):
 class _Prop:
     ID = "C20"
     TIERS = {
-        "quick": {"runs": 3_000, "wall": 85, "det_n": 60, "shrink_s": 50, "fresh_n": 30},
+        "quick": {"runs": 2_500, "wall": 85, "det_n": 60, "shrink_s": 50, "fresh_n": 30},
         "thorough": {"runs": 120_000, "wall": 1150, "det_n": 400, "shrink_s": 150},
     }
     OPTS = {"chunk": 25, "chunk_wall": 400, "fresh_n": 30}
